@@ -98,6 +98,9 @@ func (fr *Frame) call(in ssa.Instruction, c *ssa.CallCommon, st *State, g string
 		fc.assumes["trusted model: math.Abs(x) == |x| (exact on finite float64)"] = true
 		return []SV{{t: fc.define(fr.prefix+"fabs", "Real", ite(app(">=", args[0].t, "0.0"), args[0].t, app("-", args[0].t))), typ: sig.Results().At(0).Type()}}
 	}
+	if res, ok := fr.mathPowConst(key, c); ok && spec == nil { // ext_float.go: math.Pow of constants
+		return res
+	}
 	if key == badgerPkgPath+".DB).Update" || key == badgerPkgPath+".DB).View" {
 		if res, ok := fr.badgerRunModel(key, c, st, g, pos); ok {
 			return res
